@@ -80,3 +80,66 @@ package points
 //@   bind FP ringptr, F ringint, C curveparams
 //@   ensures choice == 0 ==> p.X == old(z.X) && p.Y == old(z.Y) && p.Z == old(z.Z)
 //@   ensures choice == 1 ==> p.X == old(nz.X) && p.Y == old(nz.Y) && p.Z == old(nz.Z)
+
+// ---------------------------------------------------------------- twisted Edwards, extended coordinates
+// a x^2 + y^2 = 1 + d x^2 y^2 ; (X:Y:Z:T) with x = X/Z, y = Y/Z, T = XY/Z.  cpD is the curve constant d.
+// Hisil-Wong-Carter-Dawson 2008 unified addition and dedicated doubling, as polynomials.
+//@ ghost func cpD() Int
+
+//@ func (*TwistedEdwardsPointImpl).Add
+//@   property C14
+//@   bind FP ringptr, F ringint, C curveparams
+//@   let X1 = lhs.X
+//@   let Y1 = lhs.Y
+//@   let Z1 = lhs.Z
+//@   let T1 = lhs.T
+//@   let X2 = rhs.X
+//@   let Y2 = rhs.Y
+//@   let Z2 = rhs.Z
+//@   let T2 = rhs.T
+//@   ensures p.X == (X1*Y2 + X2*Y1) * (Z1*Z2 - cpD()*T1*T2)
+//@   ensures p.Y == (Z1*Z2 + cpD()*T1*T2) * (Y1*Y2 - cpA()*X1*X2)
+//@   ensures p.T == (X1*Y2 + X2*Y1) * (Y1*Y2 - cpA()*X1*X2)
+//@   ensures p.Z == (Z1*Z2 - cpD()*T1*T2) * (Z1*Z2 + cpD()*T1*T2)
+//@   ensures p.X * p.Y == p.T * p.Z
+
+//@ func (*TwistedEdwardsPointImpl).Double
+//@   property C14
+//@   bind FP ringptr, F ringint, C curveparams
+//@   let X1 = v.X
+//@   let Y1 = v.Y
+//@   let Z1 = v.Z
+//@   ensures p.X == 2*X1*Y1 * (cpA()*X1*X1 + Y1*Y1 - 2*Z1*Z1)
+//@   ensures p.Y == (cpA()*X1*X1 + Y1*Y1) * (cpA()*X1*X1 - Y1*Y1)
+//@   ensures p.T == 2*X1*Y1 * (cpA()*X1*X1 - Y1*Y1)
+//@   ensures p.Z == (cpA()*X1*X1 + Y1*Y1 - 2*Z1*Z1) * (cpA()*X1*X1 + Y1*Y1)
+//@   ensures p.X * p.Y == p.T * p.Z
+
+//@ func (*TwistedEdwardsPointImpl).Neg
+//@   property C14
+//@   bind FP ringptr, F ringint, C curveparams
+//@   ensures p.X == -old(v.X) && p.Y == old(v.Y) && p.Z == old(v.Z) && p.T == -old(v.T)
+
+//@ func (*TwistedEdwardsPointImpl).IsZero
+//@   property C14, C13
+//@   bind FP ringptr, F ringint, C curveparams
+//@   ensures (result == 1) == (p.X == 0 && p.Y == p.Z)
+//@   ensures result == 0 || result == 1
+
+//@ func (*TwistedEdwardsPointImpl).Equal
+//@   property C14
+//@   bind FP ringptr, F ringint, C curveparams
+//@   ensures (result == 1) == (p.X * v.Z == v.X * p.Z && p.Y * v.Z == v.Y * p.Z)
+//@   ensures result == 0 || result == 1
+
+//@ func (*TwistedEdwardsPointImpl).SetZero
+//@   property C14
+//@   bind FP ringptr, F ringint, C curveparams
+//@   ensures p.X == 0 && p.Y == 1 && p.Z == 1 && p.T == 0
+
+//@ func (*TwistedEdwardsPointImpl).Select
+//@   property C14
+//@   bind FP ringptr, F ringint, C curveparams
+//@   ensures choice == 0 ==> p.X == old(z.X) && p.Y == old(z.Y) && p.Z == old(z.Z) && p.T == old(z.T)
+//@   ensures choice == 1 ==> p.X == old(nz.X) && p.Y == old(nz.Y) && p.Z == old(nz.Z) && p.T == old(nz.T)
+
